@@ -16,8 +16,10 @@ GEN = {"quick": dict(N1=4, N2=3, Thin2=8, PN=3, NW=4, ThinW=32, Thin3=0, ThinS=4
 INVS = ["InvAccept", "InvTight", "InvPost", "InvPostTight", "InvOrder", "InvAffine"]
 TRACE_CONST = dict(MaxN=0, MaxN2=0, NegV=0, PosV=0, Sorted="FALSE", SmallSh=0)
 
-LIN_VARIANTS = [("std", 0, 1), ("nomean", 0, 1), ("nostd", 0, 1), ("none", 0, 1), ("maxabs", 0, 1), ("minmax", 0, 1),
-                ("minmax", -1, 1), ("minmax", 5, 10), ("minmax", 2, 2), ("minmax", -7, 3)]
+# (method, lo, hi, rd): the min-max range is lo/rd .. hi/rd
+LIN_VARIANTS = [("std", 0, 1, 1), ("nomean", 0, 1, 1), ("nostd", 0, 1, 1), ("none", 0, 1, 1), ("maxabs", 0, 1, 1), ("minmax", 0, 1, 1),
+                ("minmax", -1, 1, 1), ("minmax", 5, 10, 1), ("minmax", 2, 2, 1), ("minmax", -7, 3, 1)] + \
+               [("minmax", lo2, lo2 + w2, 2) for lo2 in (-2, -1, 0, 2, 20) for w2 in (0, 1, 2, 4, 10)][::3]
 
 
 def _deco(r, allow_f32):
@@ -64,8 +66,8 @@ def random_cases(ctx, count):
             X = [[cols[j][i] for j in range(p)] for i in range(n)]
             # unseen rows stay near the column (outputs must remain below 1e5 to be representable on the grid)
             Z = [[r.choice([cols[j][0], cols[j][r.randrange(n)] + r.randint(-12, 12), cols[j][0] + r.randint(-40, 40)]) for j in range(p)] for _ in range(m)]
-            meth, lo, hi = r.choice(LIN_VARIANTS)
-            d.update({"ctor": r.choice(["named", "new", "setter"]), "meth": meth, "lo": lo, "hi": hi, "p": p, "X": X, "Z": Z, "sel": _sel(r, n + m)})
+            meth, lo, hi, rd = r.choice(LIN_VARIANTS)
+            d.update({"ctor": r.choice(["named", "new", "setter"]), "meth": meth, "lo": lo, "hi": hi, "rd": rd, "p": p, "X": X, "Z": Z, "sel": _sel(r, n + m)})
         elif kind == "norm":
             big = not small and r.random() < 0.5
             nzv = lambda: r.choice([-1, 1]) * (r.randint(1, 30000) if big and r.random() < 0.4 else r.randint(1, 9))
@@ -98,6 +100,16 @@ def random_cases(ctx, count):
             else:                                   # one small-unit column next to unit columns (f64, lattice data)
                 sh[r.randrange(pp)] = 14
         d["sh"] = sh
+        # large column offsets (exactly representable; the case keeps the un-shifted integers): only where every
+        # entry is a small lattice value and no small unit is used; linear scalers: shift-invariant variants, 2^30
+        oe = [0] * pp
+        lattice = all(abs(v) <= 9 for row in d["X"] + d.get("Z", []) for v in row)
+        if lattice and not any(sh) and r.random() < 0.25:
+            if kind == "lin" and d["meth"] in ("std", "nostd", "minmax") and d["ft"] == "f64":
+                oe = [r.choice([0, 30]) for _ in range(pp)]
+            elif kind == "wh" and pp <= 2:
+                oe = [r.choice([0, 14, 17] if d["ft"] == "f32" else [0, 30, 40, 46]) for _ in range(pp)]
+        d["oe"] = oe
         d["lay"] = r.choice(["c", "c", "f", "t", "revr", "revc", "step"])     # memory layout of the record matrices
         out.append({"kind": kind, "inp": d})
     return out
@@ -115,7 +127,7 @@ def nontrivial(case):
     const = any(len(set(c)) == 1 for c in cols)
     zero_row = any(all(v == 0 for v in r) for r in X)
     wide = any(max(abs(v) for v in c) >= 100 for c in cols)
-    return const or zero_row or wide or any(i.get("sh", [])) or i.get("lay", "c") != "c" or i["ft"] == "f32" or bool(i["sel"])
+    return const or zero_row or wide or any(i.get("sh", [])) or any(i.get("oe", [])) or i.get("rd", 1) != 1 or i.get("lay", "c") != "c" or i["ft"] == "f32" or bool(i["sel"])
 
 
 def run(ctx):
